@@ -57,8 +57,11 @@ def run_case(rng, tier, idx):
     m0 = n0 = 0
     if imperfect:
         m0 = int(rng.integers(1, 4)); n0 = int(rng.integers(1, 4))
-        d['imp'] = {'m0': m0, 'n0': n0, 'funcnum': int(rng.choice([1, 2, 3])),
-                    'c0': [float(x) for x in rng.normal(size=2 * m0 * n0) * h * 10 ** rng.uniform(-1, 0)]}
+        fn = int(rng.choice([1, 2, 3]))
+        # coefficient layout of compmech/conecyl/imperfections/mgi.pyx: 2 per (i, j) term for the sine / cosine families, 4 for the
+        # combined family (a shorter vector is read past its end by the kernels - an invalid input, not a result)
+        d['imp'] = {'m0': m0, 'n0': n0, 'funcnum': fn,
+                    'c0': [float(x) for x in rng.normal(size=(4 if fn == 3 else 2) * m0 * n0) * h * 10 ** rng.uniform(-1, 0)]}
     zero_state = bool(rng.random() < 0.2)
     d['inc'] = inc
     d['nx'] = int(4 * max(d['m1'], d['m2'], m0) + 2 * rng.integers(1, 6))
